@@ -6,7 +6,9 @@ def explore(run, lean):
     quick = run.tier == "quick"
     hsm_corr.explore(run, "C01", 1500 if quick else 20000, hosts=("plain", "instr", "queued"),
                      malformed_rate=0.0, exhaustive_n=(0 if quick else 5))
-    run.extra["rule"] = ("corpus witnesses first, then random charts (1-14 states, 40% deep chains, multi-level initial "
+    hsm_corr.explore_orthogonal(run, "C01", 200 if quick else 4000)
+    run.extra["rule"] = ("(b) a second chart object dispatched to from the first one's entry/exit/init actions: the first behaves as alone; "
+                         "(a) corpus witnesses first, then random charts (1-14 states, 40% deep chains, multi-level initial "
                          "transitions, per-state HANDLED/fall-through flags) with scripts of start_at + 1-6 ops on plain / "
                          "instrumented / queued hosts; thorough tier adds all trees with <=5 states x all (cur,S,T) x all single "
                          "init assignments; non-trivial = the script reaches the property's mechanism (see histogram); "
